@@ -330,7 +330,7 @@ pub fn c09(args: &Args) -> Report {
         }
         let mut rng = hist_rng(args.seed(), 0xC09, i);
         let mut p = Pools::basic();
-        p.authors = vec![author(0), author(1)];
+        p.authors = vec![author(0), author_twin(0), author(1)];
         p.kinds = vec![0, 1, 2, 3, 4, 9999, 10000, 10001, 19999, 20000, 29999, 30000, 30000, 30001, 39999, 40000, 65535];
         if i % 2 == 0 {
             p.kinds = vec![0, 3, 10000, 30000, 30000, 30001, 1];
@@ -402,7 +402,7 @@ pub fn c10(args: &Args) -> Report {
         }
         let mut rng = hist_rng(args.seed(), 0xC10, i);
         let mut p = Pools::basic();
-        p.authors = vec![author(0), author(1)];
+        p.authors = vec![author(0), author_twin(0), author(1)];
         p.kinds = vec![1, 0, 10002, 30023, 30023, 30024, 7];
         p.times = if i % 5 == 3 { vec![100, 101, 4_102_444_800, u64::MAX - 1, u64::MAX] } else { vec![100, 101, 102, 103, 200] };
         p.dvals = vec!["".into(), "x".into(), "y".into(), "x:y".into(), ":".into()];
@@ -454,7 +454,7 @@ pub fn c11(args: &Args) -> Report {
         }
         let mut rng = hist_rng(args.seed(), 0xC11, i);
         let mut p = Pools::basic();
-        p.authors = vec![author(0), author(1)];
+        p.authors = vec![author(0), author_twin(0), author(1)];
         p.kinds = vec![1, 0, 3, 10002, 30023, 30023, 30024];
         p.times = if i % 5 == 4 { vec![60, 80, (1 << 32) + 100, (1 << 32) + 120, (1 << 40) + 1] } else { vec![60, 80, 100, 120, 140] };
         p.dvals = vec!["".into(), "x".into(), "x:y".into(), "x:y:z".into(), ":".into(), "https://example.com/a/1".into(), "https".into(), "x\u{0}".into(), long_d(181, "a"), long_d(182, "a"), long_d(183, "ab"), long_d(400, "z")];
@@ -541,7 +541,7 @@ pub fn c12(args: &Args) -> Report {
         }
         let mut rng = hist_rng(args.seed(), 0xC12, i);
         let mut p = Pools::basic();
-        p.authors = vec![author(0), author(1)];
+        p.authors = vec![author(0), author_twin(0), author(1)];
         p.kinds = vec![1, 0, 10002, 30023, 30023, 7];
         p.times = if i % 5 == 3 { vec![100, 101, 4_102_444_800, u64::MAX - 1, u64::MAX] } else { vec![100, 101, 102, 103] };
         // a d value too long for an address marker key: the request fails inside LMDB after earlier tags took effect
